@@ -136,6 +136,49 @@ fn conservation(run: &comp::Run, mods: Option<&[Module]>, model: Option<&ModuleS
     }
 }
 
+/// conservation for the TypeScript backend: parsed inventory (H1) = emitted (H5 with text) u warned (H5 Err / named in a
+/// warning) u documented-silent
+fn conservation_ts(run: &comp::Run, set: &ModuleSet, origin: &str, value_kinds: &BTreeMap<String, String>, rep: &mut Report) {
+    let inv = inventory(&run.events);
+    let warnings = run.out.warnings().join("\n");
+    let n_warn = run.out.warnings().len();
+    let h5_err = inv.outcome.values().filter(|(o, _)| o == "Err").count();
+    rep.count("typescript_hook_events[TldOutcome]", inv.outcome.len() as u64);
+    if n_warn < h5_err {
+        rep.violations.push(Violation { sig: "c10|typescript|warnings-dropped".into(), what: format!("{h5_err} definitions failed in the TypeScript generator but only {n_warn} warnings were returned [{origin}]"), replay: json!({"origin": origin, "asn1": set.render().text}) });
+    }
+    for ((module, name), (kind, parameterized)) in &inv.lexed {
+        rep.count("typescript_definitions_accounted", 1);
+        let key = (module.clone(), name.clone());
+        let silent_by_doc = *parameterized || matches!(kind.as_str(), "Class" | "Object" | "ObjectSet");
+        let named_in_warning = warnings.contains(&format!("PDU {name}:")) || warnings.contains(&format!("for {name}:")) || warnings.contains(&format!("'{name}'"));
+        let status = match inv.outcome.get(&key) {
+            Some((o, n)) if o == "Tokens" && *n > 0 => "emitted",
+            Some((o, _)) if o == "Err" => "warned",
+            _ if named_in_warning => "warned",
+            _ if silent_by_doc => "silent-by-documentation",
+            Some(_) => "LOST:empty-output",
+            None => "LOST:never-generated",
+        };
+        rep.count(&format!("typescript_definitions[{}]", status.split(':').next().unwrap()), 1);
+        if let Some(lost) = status.strip_prefix("LOST:") {
+            let dup = inv.overwritten.iter().any(|(n, a, b)| n == name && (a == module || b == module));
+            let detail = if dup {
+                "duplicate-name-across-modules".to_string()
+            } else if kind == "Value" {
+                format!("value:{}", value_kinds.get(name).cloned().unwrap_or_else(|| "unmodelled".into()))
+            } else {
+                kind.to_string()
+            };
+            rep.violations.push(Violation {
+                sig: format!("c10|typescript|lost-silently|{lost}|{detail}"),
+                what: format!("TypeScript backend: definition {module}.{name} ({kind}) is neither emitted, nor warned about, nor of a category documented as silent [{origin}]"),
+                replay: json!({"origin": origin, "definition": name, "module": module, "asn1": set.render().text}),
+            });
+        }
+    }
+}
+
 fn value_kind(ty: &Ty, val: &Val, env: &BTreeMap<String, (usize, Ty)>) -> String {
     let t = resolve(env, ty).map(|t| crate::oracle::model_kind_name(&t.kind)).unwrap_or("?");
     let v = match val {
@@ -169,7 +212,7 @@ fn fault_assign(kind: usize, serial: usize) -> Assign {
         3 => Assign::Raw { name: format!("vq{serial}"), tokens: format!("vq{serial} REAL ::= 3.14").split(' ').map(String::from).collect() },
         4 => Assign::Raw {
             name: format!("MQ{serial}"),
-            tokens: format!("MQ{serial} MACRO ::= BEGIN TYPE NOTATION ::= \"X\" VALUE NOTATION ::= value ( VALUE INTEGER ) END").split(' ').map(String::from).collect(),
+            tokens: format!("MQ{serial} MACRO ::= BEGIN TYPE NOTATION ::= \"X\" VALUE NOTATION ::= value (VALUE INTEGER) END").split(' ').map(String::from).collect(),
         },
         _ => Assign::Raw { name: format!("Tq{serial}"), tokens: format!("Tq{serial} ::= TIME").split(' ').map(String::from).collect() },
     }
@@ -177,6 +220,19 @@ fn fault_assign(kind: usize, serial: usize) -> Assign {
 
 /// names that (transitively) depend on any of `roots` in the model's reference graph (types and values)
 fn dependents(set: &ModuleSet, roots: &BTreeSet<String>) -> BTreeSet<String> {
+    // identifiers anywhere inside a value (lists, records, CHOICE values): a value reference, a named number or an enumeral —
+    // counting the latter two as "uses" only enlarges the dependency cone, which is the safe direction
+    fn names_in_val(v: &Val, out: &mut BTreeSet<String>) {
+        match v {
+            Val::Ident(x) => {
+                out.insert(x.clone());
+            }
+            Val::Choice(_, inner) => names_in_val(inner, out),
+            Val::Seq(fs) => fs.iter().for_each(|(_, x)| names_in_val(x, out)),
+            Val::List(xs) => xs.iter().for_each(|x| names_in_val(x, out)),
+            _ => {}
+        }
+    }
     fn names_in_ty(t: &Ty, out: &mut BTreeSet<String>) {
         match &t.kind {
             TyKind::Ref { name, .. } => {
@@ -185,8 +241,8 @@ fn dependents(set: &ModuleSet, roots: &BTreeSet<String>) -> BTreeSet<String> {
             TyKind::Sequence(s) | TyKind::Set(s) | TyKind::Choice(s) => {
                 for c in crate::oracle::all_comps(s) {
                     names_in_ty(&c.ty, out);
-                    if let Optionality::Default(Val::Ident(v)) = &c.opt {
-                        out.insert(v.clone());
+                    if let Optionality::Default(v) = &c.opt {
+                        names_in_val(v, out);
                     }
                 }
             }
@@ -202,9 +258,7 @@ fn dependents(set: &ModuleSet, roots: &BTreeSet<String>) -> BTreeSet<String> {
                 Assign::Type { ty, .. } => names_in_ty(ty, &mut u),
                 Assign::Value { ty, val, .. } => {
                     names_in_ty(ty, &mut u);
-                    if let Val::Ident(v) = val {
-                        u.insert(v.clone());
-                    }
+                    names_in_val(val, &mut u);
                 }
                 Assign::Raw { .. } => {}
             }
@@ -246,6 +300,21 @@ fn check_g(seed: u64, idx: u64, rep: &mut Report) {
     let Ok(base_mods) = proj::project(generated) else { return };
     rep.nontrivial.insert(hash_of(&set));
     conservation(&base, Some(&base_mods), Some(&set), &origin, &vk, rep);
+    // ---- the TypeScript backend: same accounting on its own hook log (H1 + H5 of that backend), on the input as it is and
+    // with one parseable-but-unsupported definition appended
+    {
+        let mut with_fault = set.clone();
+        let k = (idx % FAULTS.len() as u64) as usize;
+        with_fault.modules[0].assigns.push(fault_assign(k, 900_000 + idx as usize));
+        for (s, o) in [(&set, format!("{origin}+typescript")), (&with_fault, format!("{origin}+typescript+{}", FAULTS[k]))] {
+            let run = comp::ts(&[s.render().text]);
+            rep.evaluations += 1;
+            rep.count(&format!("typescript_compilations[{}]", run.out.status()), 1);
+            if matches!(run.out, comp::Outcome::Ok { .. }) {
+                conservation_ts(&run, s, &o, &vk, rep);
+            }
+        }
+    }
     if rep.samples.len() < 3 && idx % 131 == 3 {
         rep.sample(json!({"origin": origin, "definitions": set.modules.iter().map(|m| m.assigns.len()).sum::<usize>(), "warnings": base.out.warnings().len()}));
     }
